@@ -361,6 +361,15 @@ class ResendRule(BaseRule):
         return None
 
 
+def resend_kind(site):
+    """What a resend site does on the path it was recorded on: (where it goes, what consumed the budget) - three kinds in the pool
+    (redirect, retry on a status, retry after an error), however many call expressions the source spells them with."""
+    u, r = site.args.get("url"), site.args.get("retries")
+    to = "redirect" if (u is not None and (("location" in u.tags) or any(t.startswith("ref:location") or t == "urljoin" for t in u.tags))) else "same-url"
+    how = sorted(t for t in (r.tags if r is not None else ()) if t.startswith("inc:"))
+    return (to, how[0] if how else "inc:?")
+
+
 EVENT_ATTRS = {"urlopen", "from_int", "increment", "drain_conn", "_make_request", "is_same_host", "get_redirect_location", "_prepare_proxy", "_get_conn",
                "connection_from_host", "_proxy_requires_url_absolute_form", "sleep", "sleep_for_retry", "is_retry"}
 NEVER_INLINE = {"urlopen", "_make_request", "_get_conn", "_put_conn", "_new_conn", "_prepare_proxy", "_validate_conn", "_get_timeout", "_raise_timeout",
